@@ -722,6 +722,10 @@ func main() {
 	r.Cases("scripted", 7, hv, scripted)
 	r.Cases("match/ascii", r.N(50000, 1600000), hv, cfg{als: small, minN: 1, maxN: 8, maxLen: 5, match: true}.run)
 	r.Cases("match/utf8", r.N(50000, 1600000), hv, cfg{als: utf, minN: 1, maxN: 8, maxLen: 5, match: true}.run)
+	// the same workload on parallel workers under the race detector: package-level state shared
+	// between instances that no goroutine shares is reported from the happens-before relation,
+	// whether or not the accesses collide in this run (and however loaded the machine is)
+	r.CasesProc("match/utf8/race-parallel", r.N(1000, 30000), ev.Opt{Bin: "race", Procs: 2, Workers: 8, AlwaysLog: true, HangViolation: true, MaxCaseSeconds: 120}, cfg{als: utf, minN: 1, maxN: 8, maxLen: 5, match: true}.run)
 	r.Cases("match/fffd", r.N(25000, 800000), hv, cfg{als: fffd, minN: 1, maxN: 8, maxLen: 4, match: true}.run)
 	r.Cases("match/wide", r.N(6000, 240000), hv, cfg{als: wide, minN: 11, maxN: 40, maxLen: 4, match: true}.run)
 	bigT := []int{400, 1500, 4000}
